@@ -56,6 +56,18 @@ class Process:
         self.files: List[Any] = []             # python file objects opened through the open seam
         self.seam_count = 0                    # process-local seam counter (fault addressing)
         self.exited = False                    # ended by an interrupt (F5)
+        self.flock_objs: List[Any] = []        # FileLock instances created by this process
+
+    def neutralise_locks(self) -> None:
+        """The process is gone: its FileLock objects must not unlock/close recycled fd numbers
+        from __del__ at some later, collector-chosen time."""
+        for fl in self.flock_objs:
+            try:
+                fl._locked = False
+                fl._lock_fd = None
+            except Exception:
+                pass
+        self.flock_objs = []
 
     def __repr__(self) -> str:
         return f"<proc {self.name}>"
@@ -594,6 +606,7 @@ class Sim:
             except Exception:
                 pass
         p.files.clear()
+        p.neutralise_locks()
         # every parked actor of p will raise SimDead when it next gets the baton;
         # sleeping/blocked ones are made ready so they can die promptly.
         for a in self.actors:
@@ -746,6 +759,7 @@ class Sim:
                 except Exception:
                     pass
             p.files.clear()
+            p.neutralise_locks()
         Sim.current = None
 
 
